@@ -51,6 +51,12 @@ type Target interface {
 	Close()
 }
 
+// SoftDeleter: the endpoint targets' keys/<name>/soft-delete (restore = false) and soft-delete-restore (restore = true).
+// Only driven WITH a planned storage fault on their single Put: the request then fails and must leave the key as it was.
+type SoftDeleter interface {
+	SoftDelete(restore bool) string
+}
+
 const InjectedPutError = "verif: injected put failure"
 
 // Classify maps an error message of keysutil / the transit endpoints to the model's error class.
@@ -1106,7 +1112,27 @@ func (g *gen) opDelete() {
 	g.emit("ok", "delete")
 }
 
+// opSoftDelFault: a soft-delete (or soft-delete-restore) whose only Put fails: the request errs and nothing about the key
+// may change — in particular not the cached policy's soft_deleted flag, which would make every later use of the key fail
+// (or, for a failed restore, succeed) although storage says otherwise.
+func (g *gen) opSoftDelFault(sd SoftDeleter) {
+	g.t.FailPut(1)
+	g.faultSeen = true
+	g.emit("ok", "failput", "1")
+	restore := g.rng.Chance(25)
+	cls := sd.SoftDelete(restore)
+	g.t.FailPut(0)
+	g.emit(g.polResult(cls), "softdel-fault", b01(restore))
+	if cls == "persist:put" {
+		g.failedFaults = append(g.failedFaults, "softdel")
+	}
+}
+
 func (g *gen) opFailPut() {
+	if sd, ok := g.t.(SoftDeleter); ok && g.rng.Chance(25) {
+		g.opSoftDelFault(sd)
+		return
+	}
 	k := 1 + g.rng.Intn(2)
 	if g.rng.Chance(10) {
 		k = 3
